@@ -146,11 +146,23 @@ def line_of(st):
 class Runner:
     def __init__(self, model, drv):
         self.model, self.drv = model, drv
+        # form T: the escape tables of coap_get_uri_path / coap_get_query are taken from the
+        # library on this run (C16 owns their content); the model is parametric in them
+        out, _ = vlib.run_lines_robust(drv, ["c10esc"])
+        self.esc = out[0].strip()
+        ref, _ = vlib.run_lines_robust(model, ["c10esc"])
+        self.esc_ref = ref[0].strip()
+        if not re.fullmatch(r"[0-9a-f]{64} [0-9a-f]{64}", self.esc):
+            raise vlib.BuildError("c10esc: unexpected answer of the C driver: " + self.esc[:100])
 
     def run(self, lines):
         """-> list of (serve, impl, allowed list) canonicalised"""
-        om, oc, crashes = tie.run_both(self.model, self.drv, lines)
-        oa, _ = vlib.run_lines_robust(self.model, ["c10a" + ln[3:] for ln in lines])
+        setl = "c10esc " + self.esc
+        om, _ = vlib.run_lines_robust(self.model, [setl] + lines)
+        om = om[1:]
+        oc, crashes = vlib.run_lines_robust(self.drv, lines)
+        oa, _ = vlib.run_lines_robust(self.model, [setl] + ["c10a" + ln[3:] for ln in lines])
+        oa = oa[1:]
         res = []
         for i in range(len(lines)):
             al = [canon(x) for x in oa[i].split(" || ")]
@@ -229,6 +241,8 @@ def main(run):
     model = vlib.build_model()
     drv = vlib.build_driver("h_dispatch", ["h_dispatch.c"], wraps=WRAPS)
     runner = Runner(model, drv)
+    run.cov["escape_tables_from_library"] = runner.esc
+    run.cov["escape_tables_equal_reference"] = runner.esc == runner.esc_ref
     if getattr(run, "replay", None):
         # re-run the case lines of a replay file and report them again
         rl = []
